@@ -129,6 +129,9 @@ def run(ctx):
     nrows = 0
     for name in ("get", "get_mut", "define"):
         nrows += scopes.table(ctx, fb, "C01-innermost", name)
+    # (the same on a chain of four frames, all sixteen subsets: a walk that gives up, or wraps, after a fixed number of steps)
+    for name in ("get", "get_mut", "define"):
+        scopes.table(ctx, fb, "C01-innermost", name, n=4 if ctx.tier != "thorough" else 5)
     if nrows < 24:
         ctx.undecided("C01-innermost", "floor", "only %d rows of the scope-chain tables were evaluated" % nrows)
 
